@@ -1032,6 +1032,7 @@ func c01SimplePrograms() []*Prog {
 			out = append(out, &Prog{Stmts: st})
 		}
 	}
+	out = append(out, c01TwelveOfEach()...)
 	// all ordered pairs of non-defining simple statements at top level and in a loop
 	for i, s1 := range simples[:10] {
 		for j, s2 := range simples[:10] {
@@ -1229,4 +1230,92 @@ func C01() int {
 	r.Assumef("reference interpreter tsmodel (independent of the repository code) is the meaning of the program; strings restricted to shell-neutral content (C08 owns the rest)")
 	r.Assumef("bash at /bin/bash, run with empty environment in an empty directory")
 	return r.Finish()
+}
+
+// c01TwelveOfEach: whatever a back-end numbers (loop flags and labels, branch labels, helper temporaries,
+// function prefixes, return registers) reaches two digits: twelve constructs of one kind in a row and nested.
+func c01TwelveOfEach() []*Prog {
+	const n = 12
+	iv := func(i int) Expr { return IntLit{int64(i)} }
+	pr := func(tag string, es ...Expr) Stmt { return Print{Args: append([]Expr{StrLit{V: tag}}, es...)} }
+	x := Var{"x"}
+	defX := Define{Names: []string{"x"}, Form: DefShort, Vals: []Expr{iv(0)}}
+	var out []*Prog
+	// loops in a row, every third with continue, every fourth with break
+	{
+		st := []Stmt{defX}
+		for i := 1; i <= n; i++ {
+			k := fmt.Sprintf("k%d", i)
+			body := []Stmt{OpAssign{Name: "x", Op: "+", Val: Binary{Op: "*", L: Var{k}, R: iv(i)}}}
+			if i%3 == 0 {
+				body = append([]Stmt{If{Cond: Binary{Op: "==", L: Var{k}, R: iv(1)}, Then: []Stmt{Continue{}}}}, body...)
+			}
+			if i%4 == 0 {
+				body = append(body, If{Cond: Binary{Op: ">", L: x, R: iv(40 * i)}, Then: []Stmt{Break{}}})
+			}
+			st = append(st, For{Init: Define{Names: []string{k}, Form: DefShort, Vals: []Expr{iv(0)}}, Cond: Binary{Op: "<", L: Var{k}, R: iv(3)}, Post: IncDec{Name: k, Inc: true}, Body: body}, pr("loop", iv(i), x))
+		}
+		out = append(out, &Prog{Stmts: st})
+	}
+	// if / else-if chains and switches in a row
+	{
+		st := []Stmt{defX}
+		for i := 1; i <= n; i++ {
+			st = append(st, If{Cond: Binary{Op: "==", L: Binary{Op: "%", L: x, R: iv(3)}, R: iv(0)}, Then: []Stmt{OpAssign{Name: "x", Op: "+", Val: iv(i)}},
+				Elifs: []ElseIf{{Cond: Binary{Op: "==", L: Binary{Op: "%", L: x, R: iv(3)}, R: iv(1)}, Body: []Stmt{OpAssign{Name: "x", Op: "+", Val: iv(2 * i)}}}},
+				Else: []Stmt{OpAssign{Name: "x", Op: "-", Val: iv(1)}}, HasElse: true}, pr("if", iv(i), x))
+		}
+		for i := 1; i <= n; i++ {
+			st = append(st, Switch{Tag: Binary{Op: "%", L: x, R: iv(4)}, Cases: []Case{{Val: iv(0), Body: []Stmt{OpAssign{Name: "x", Op: "+", Val: iv(i)}}}, {Val: iv(1), Body: []Stmt{OpAssign{Name: "x", Op: "*", Val: iv(2)}}},
+				{Default: true, Body: []Stmt{OpAssign{Name: "x", Op: "+", Val: iv(3)}}}}}, pr("sw", iv(i), x))
+		}
+		out = append(out, &Prog{Stmts: st})
+	}
+	// nesting depth 12: loops and branches alternating
+	{
+		inner := []Stmt{OpAssign{Name: "x", Op: "+", Val: iv(1)}, pr("deep", x)}
+		for d := n; d >= 1; d-- {
+			k := fmt.Sprintf("d%d", d)
+			if d%2 == 0 {
+				inner = []Stmt{If{Cond: Binary{Op: ">=", L: x, R: iv(0)}, Then: inner, Else: []Stmt{pr("never", iv(d))}, HasElse: true}}
+			} else {
+				inner = []Stmt{For{Init: Define{Names: []string{k}, Form: DefShort, Vals: []Expr{iv(0)}}, Cond: Binary{Op: "<", L: Var{k}, R: iv(1 + d%2)}, Post: IncDec{Name: k, Inc: true}, Body: inner}, pr("after", iv(d), x)}
+			}
+		}
+		out = append(out, &Prog{Stmts: append([]Stmt{defX}, inner...)})
+	}
+	// twelve functions, each with a parameter, a local and a loop; called in a row and nested twelve deep
+	{
+		var st []Stmt
+		for i := 1; i <= n; i++ {
+			body := []Stmt{Define{Names: []string{"t"}, Form: DefShort, Vals: []Expr{Binary{Op: "+", L: Var{"a"}, R: iv(i)}}},
+				For{Init: Define{Names: []string{"j"}, Form: DefShort, Vals: []Expr{iv(0)}}, Cond: Binary{Op: "<", L: Var{"j"}, R: iv(2)}, Post: IncDec{Name: "j", Inc: true}, Body: []Stmt{OpAssign{Name: "t", Op: "+", Val: Var{"j"}}}}}
+			if i > 1 {
+				body = append(body, OpAssign{Name: "t", Op: "+", Val: Call{Fn: fmt.Sprintf("f%d", i-1), Args: []Expr{Var{"a"}}}})
+			}
+			body = append(body, Return{Vals: []Expr{Var{"t"}}})
+			st = append(st, FuncDef{Name: fmt.Sprintf("f%d", i), Params: []Param{{"a", TInt}}, Rets: []Type{TInt}, Body: body})
+		}
+		var nest Expr = iv(1)
+		for i := 1; i <= n; i++ {
+			st = append(st, pr("call", iv(i), Call{Fn: fmt.Sprintf("f%d", i), Args: []Expr{iv(i)}}))
+			nest = Call{Fn: fmt.Sprintf("f%d", 1+(i*5)%n), Args: []Expr{nest}}
+		}
+		st = append(st, pr("nested", nest))
+		out = append(out, &Prog{Stmts: st})
+	}
+	// one expression with more than ten temporaries of every kind
+	{
+		var sum Expr = iv(1)
+		var all Expr = BoolLit{true}
+		var cat Expr = StrLit{V: "s"}
+		for i := 2; i <= n+1; i++ {
+			sum = Binary{Op: []string{"+", "-", "*"}[i%3], L: sum, R: Group{X: Binary{Op: "%", L: Binary{Op: "+", L: x, R: iv(i)}, R: iv(7)}}}
+			all = Binary{Op: []string{"&&", "||"}[i%2], L: all, R: Binary{Op: []string{"<", ">=", "!="}[i%3], L: Binary{Op: "+", L: x, R: iv(i)}, R: iv(2 * i)}}
+			cat = Binary{Op: "+", L: cat, R: Itoa{X: Binary{Op: "*", L: x, R: iv(i)}}}
+		}
+		st := []Stmt{Define{Names: []string{"x"}, Form: DefShort, Vals: []Expr{iv(5)}}, pr("sum", sum), pr("all", all), pr("cat", cat), pr("mix", sum, all, cat, Len{X: cat})}
+		out = append(out, &Prog{Stmts: st})
+	}
+	return out
 }
